@@ -101,6 +101,7 @@ type Spec struct {
 	RetriesOnlyG0 bool `json:"retries_only_g0,omitempty"` // shared-task workloads: TaskRetries calls are made on graph 0 only, the other graphs use the tasks without retries
 	Colon         bool `json:"colon,omitempty"`           // task IDs with colons chosen so that "<id>:<dependency id>" of two different edges is the same text
 	QuietMask     int  `json:"quiet_mask,omitempty"`      // buffered runs: tasks (bit i) that write nothing
+	Nested        bool `json:"nested,omitempty"`          // buffered runs: the first attempt of task 0 runs a buffered graph of its own (three writing tasks) with the context it was given
 }
 
 // Model - what the history is supposed to mean (from the documented API semantics).
@@ -275,6 +276,9 @@ type Trace struct {
 	Output                 string       `json:"output,omitempty"`
 	OutputWrites           int          `json:"output_writes,omitempty"`
 	OutputRead             bool         `json:"output_read,omitempty"` // every Run returned: the plain writer was read
+	InnerOutput            string       `json:"inner_output,omitempty"` // Spec.Nested: what the inner graph's own writer received
+	InnerRan               bool         `json:"inner_ran,omitempty"`
+	InnerErr               string       `json:"inner_err,omitempty"`
 	SortIDs                []string     `json:"sort_ids,omitempty"`
 	SortErr                string       `json:"sort_err,omitempty"`
 	SerialCounter          int          `json:"serial_counter"`
@@ -415,6 +419,9 @@ type runner struct {
 	rng            uint64
 	sentinels      []error
 	attemptErrs    [][]error // [task][attempt-1], used with Spec.AttemptErrs
+	inner          *plainWriter
+	innerRan       bool
+	innerErr       error
 	out            *plainWriter
 }
 
@@ -434,6 +441,28 @@ func (r *runner) rand() uint64 {
 	z = (z ^ (z >> 30)) * 0xBF58476D1CE4E5B9
 	z = (z ^ (z >> 27)) * 0x94D049BB133111EB
 	return z ^ (z >> 31)
+}
+
+// runInner - a buffered graph run from inside a task of a buffered graph, with the context the task was given: its output
+// belongs to its own writer, block by block.
+func (r *runner) runInner(ctx context.Context) {
+	r.inner = &plainWriter{}
+	ig := dag.NewGraph("inner7")
+	ig.TickerDuration = 20 * time.Microsecond
+	ig.UseColor = false
+	ig.SetOutputBuffer(r.inner)
+	for k := 0; k < 3; k++ {
+		k := k
+		ig.AddTask(dag.NewTask(fmt.Sprintf("i%d", k), func(c context.Context, _ *getoptions.GetOpt, _ []string) error {
+			for j := 1; j <= 2; j++ {
+				fmt.Fprintf(dag.Stdout(c), "<g7:t%d:1:%d/2>", k, j)
+				runtime.Gosched()
+			}
+			return nil
+		}))
+	}
+	r.innerErr = ig.Run(ctx, nil, nil)
+	r.innerRan = true
 }
 
 func (r *runner) outcomeFor(task, attempt int) int {
@@ -511,6 +540,9 @@ func (r *runner) taskFn(i int) getoptions.CommandFn {
 				n = 3
 			}
 			for k := 1; k <= n; k++ {
+				if k == 2 && r.spec.Nested && i == 0 && attempt == 1 && gi == 0 {
+					r.runInner(ctx)
+				}
 				w := dag.Stdout(ctx)
 				if k%2 == 0 {
 					w = dag.Stderr(ctx)
@@ -1067,6 +1099,13 @@ func Execute(spec *Spec) *Trace {
 		// every Run returned: its goroutines are gone, plain state can be read
 		tr.Output = string(r.out.buf)
 		tr.OutputRead = true
+		if r.innerRan {
+			tr.InnerRan = true
+			tr.InnerOutput = string(r.inner.buf)
+			if r.innerErr != nil {
+				tr.InnerErr = r.innerErr.Error()
+			}
+		}
 		tr.OutputWrites = r.out.writes
 		tr.SerialCounter = r.serialCtr
 		tr.TaskCounters = append([]int{}, r.taskCounters...)
